@@ -198,7 +198,7 @@ def preprocessing_protocols():
                 for w in (False, True):
                     X = arr("X", "N", "M")
                     kw = {"sample_weight": arr("w", "N")} if w else {}
-                    out.append(Proto(f"StandardFlexibleScaler[mean={wm},std={ws},colwise={cw},weights={w}]", "skmatter.preprocessing.StandardFlexibleScaler", {"with_mean": wm, "with_std": ws, "column_wise": cw}, [("fit", (X,), kw), ("transform", (arr("Xt", "V", "M"),), {}), ("inverse_transform", (arr("Xi", "V", "M"),), {})], assume=assume_default))
+                    out.append(Proto(f"StandardFlexibleScaler[mean={wm},std={ws},colwise={cw},weights={w}]", "skmatter.preprocessing.StandardFlexibleScaler", {"with_mean": wm, "with_std": ws, "column_wise": cw}, [("fit", (X,), kw), ("transform", (arr("Xt", "V", "M"),), {}), ("transform", (arr("Xs", "N", "M"),), {}), ("inverse_transform", (arr("Xi", "V", "M"),), {})], assume=assume_default))
     for wc in (True, False):
         for wt in (True, False):
             for w in (False, True):
@@ -315,3 +315,25 @@ def reader_state_obligations(ctx, rule, prefix, cls):
         Ip, sp_, op_, _res = run(ctx, p_)
         for meth_, changed_ in getattr(Ip, "_reader_changes", []):
             ctx.ob(rule, f"{p_.name}.{meth_} leaves the fitted state untouched", not changed_, f"attributes rewritten / created: {changed_}" if changed_ else "no fitted attribute changed", ctx.site(P.method(cls, meth_)), p_.name)
+
+
+def fit_transform_consistency(ctx, N, rule, cls_qual, variants, mkargs, mkkw=lambda: {}):
+    """fit_transform(data) returns what fit(data).transform(data) returns and leaves the same fitted state,
+    for every constructor variant (dict of keyword arguments)"""
+    P = ctx.P
+    cls = P.cls(cls_qual)
+    site = ctx.site(cls.methods["fit_transform"]) if "fit_transform" in cls.methods else ctx.site(P.method(cls, "fit"))
+    for ctor in variants:
+        cfg = ",".join(f"{k}={v}" for k, v in sorted(ctor.items()))
+        I1, s1 = ctx.interp(assume=assume_default), State()
+        o1 = ctx.construct(I1, s1, cls_qual, **ctor)
+        r1 = ctx.call_method(I1, s1, o1, "fit_transform", *mkargs(), **mkkw())
+        I2, s2 = ctx.interp(assume=assume_default), State()
+        o2 = ctx.construct(I2, s2, cls_qual, **ctor)
+        ctx.call_method(I2, s2, o2, "fit", *mkargs(), **mkkw())
+        r2 = ctx.call_method(I2, s2, o2, "transform", *[a for a in mkargs()][:1])
+        same = r1 is not None and r2 is not None and N.nf(r1.term) == N.nf(r2.term)
+        ctx.ob(rule, f"{cls.name}.fit_transform(X) == fit(X).transform(X) [{cfg}]", same, "equal normal forms" if same else f"fit_transform: {repr(r1.term)[:140] if r1 is not None else None} ; fit().transform(): {repr(r2.term)[:140] if r2 is not None else None}", site, cfg)
+        h1, h2 = s1.heap[o1.obj.id], s2.heap[o2.obj.id]
+        diffs = sorted(k for k in set(h1) & set(h2) if k.endswith("_") and not k.startswith("_") and h1[k].kind not in ("undef",) and N.nf(h1[k].term) != N.nf(h2[k].term))
+        ctx.ob(rule, f"{cls.name}.fit_transform leaves the fitted state of fit [{cfg}]", not diffs, f"attributes that differ: {diffs}" if diffs else "same attributes", site, cfg, nontrivial=False)
